@@ -23,8 +23,17 @@ from rbacx.core.model import Action, Context, Resource, Subject
 
 
 def pol(i: int) -> dict:
-    return {"algorithm": "deny-overrides", "rules": [{"id": f"P{i}", "effect": "permit" if i % 2 else "deny", "actions": ["read"],
-                                                       "resource": {"type": "doc"}}]}
+    """policy number i; numbers ≥ 100 are policy SETS (one child holding the rule), the others single policies"""
+    single = {"algorithm": "deny-overrides", "rules": [{"id": f"P{i}", "effect": "permit" if i % 2 else "deny", "actions": ["read"],
+                                                         "resource": {"type": "doc"}}]}
+    if i >= 100:
+        return {"algorithm": "deny-overrides", "policies": [dict(single, id="child")]}
+    return single
+
+
+def pol_number(policy: dict) -> int:
+    rules = policy["rules"] if "rules" in policy else policy["policies"][0]["rules"]
+    return int(rules[0]["id"][1:])
 
 
 ETAG = {}
@@ -96,14 +105,14 @@ def run_real(p0: int, progs: list, schedule: list, cache_kind: str):
         snap_cache.append([tags.get(tag, -1), int(rid), int(str(raw.get("last_rule_id"))[1:])])
     oga = lambda n: object.__getattribute__(g, n)  # noqa: E731
     snap = {"returned": {t: list(v) for t, v in results.items()}, "cache": sorted(snap_cache),
-            "etag": tags.get(oga("policy_etag"), -1), "pol": int(oga("policy")["rules"][0]["id"][1:])}
+            "etag": tags.get(oga("policy_etag"), -1), "pol": pol_number(oga("policy"))}
     enabled["on"] = True
     ctrl.finish_all(range(len(progs)))
     enabled["on"] = False
     if ctrl.errors:
         snap["errors"] = ctrl.errors
     # quiescent probe: everything has returned; a fresh evaluation must see the current policy
-    cur = int(oga("policy")["rules"][0]["id"][1:])
+    cur = pol_number(oga("policy"))
     probe = {}
     for k in sorted({c[1] for p in progs for c in p if c[0] == "eval"}):
         d = g.evaluate_sync(*req(k))
@@ -147,6 +156,8 @@ SCENARIOS = [
     (1, [[["eval", 1]], [["set", 2]]]),
     (1, [[["eval", 1], ["eval", 1]], [["set", 2], ["set", 1]]]),
     (1, [[["eval", 1]], [["eval", 1], ["eval", 2]], [["set", 2]]]),
+    (101, [[["eval", 1]], [["set", 3]]]),                     # a policy set replaced by a single policy
+    (1, [[["eval", 1], ["eval", 1]], [["set", 103], ["set", 1]]]),   # single → set → single
 ]
 
 
@@ -155,7 +166,7 @@ def cases(run: lib.Run, scale: int = 1):
     r = random.Random(run.seed * 9001 + 9)
     for si, (p0, progs) in enumerate(SCENARIOS):
         lens = [budget(p) for p in progs]
-        bound = (2 if si == 0 else 1) if quick else (4 if si == 0 else 2)
+        bound = (2 if si in (0, 3) else 1) if quick else (4 if si in (0, 3) else 2)
         scheds = schedules(lens, bound)
         if quick and len(scheds) > 400:
             scheds = r.sample(scheds, 400)
@@ -228,7 +239,8 @@ def run_cases(run: lib.Run, audit: dict, scale: int = 1):
 
 def check(run: lib.Run, audit: dict) -> int:
     run.rule = ("schedules of access steps on real threads: 1 evaluator × 1 set_policy (all schedules with ≤2 (quick) / ≤4 (thorough) pre-emptions), "
-                "2 evaluations × A→B→A and 2 evaluators (two requests) × 1 set_policy (≤1 / ≤2 pre-emptions), plus random schedules, with the built-in "
+                "2 evaluations × A→B→A and 2 evaluators (two requests) × 1 set_policy (≤1 / ≤2 pre-emptions), a policy set replaced by a single "
+                "policy and single → set → single, plus random schedules, with the built-in "
                 "and a dict cache; after each schedule the engine is drained and probed. non-trivial = an evaluation returned and the policy was "
                 "replaced within the schedule")
     run.assumptions = ["a single attribute load/store and a cache call are atomic in CPython; threading.Lock is a mutex (trusted base)",
